@@ -32,7 +32,7 @@ def subset(a, b):
 
 def _valid(f):
     s = z3.Solver()
-    s.set('timeout', 2000)
+    s.set('timeout', 30000)     # decisive (which sets every iteration added to): sized for a fully loaded machine
     s.add(z3.Not(f))
     return s.check() == z3.unsat
 
@@ -195,7 +195,8 @@ class ReqModel(LibModel):
                         if it.kind == 'selvars':
                             # which sets received this element? (recorded for the exit state)
                             o.st.ghost['_added'] = [r for r in pre_sets
-                                                    if not eng.feasible(o.st, z3.Not(z3.Select(o.st.ghost['idsets'][r], Z.nid(v))))]
+                                                    if not eng.feasible(o.st, z3.Not(z3.Select(o.st.ghost['idsets'][r], Z.nid(v))),
+                                                                        timeout_ms=30000)]
                             got = o.st.ghost['_added']
                             st.ghost.setdefault('_sel_added', []).append((it.data['of'], got))
                         if it.kind == 'conclusions':
